@@ -13,14 +13,16 @@ def run(ctx):
                        'A change INSIDE one of these expressions loses its anchor (exit 2, undecided); a change anywhere else in '
                        'next_frame / pending_frames / drop_output is checked against the contract')
     ctx.add_assumption('Bus::send is verified with the borrow line removed and the returned Output reduced to its key (R-refcell / '
-                       'R-subst); NOT verified: Output / Drop plumbing through Rc<RefCell<..>>, key wrap-around after 2^64 sends '
+                       'R-subst); the Output methods (next, pending_frames, is_exhausted, Drop::drop) are verified to forward to the SharedNode method with their own key, the RefCell borrow read as a parameter; NOT verified: the Rc<RefCell<..>> handle itself and the drop glue, key wrap-around after 2^64 sends '
                        '(fresh key is a precondition); backlog length < usize::MAX is a precondition of next_frame (T5)')
     ctx.notes.append('SharedNode::{next_frame, pending_frames, drop_output} verified against an abstract view (read counts, backlog) '
                      'with representation invariant `every count <= backlog length and, if the backlog is non-empty, some live output has '
                      'read none of it`; lemma_bus_next: each output receives the frame at its own position of the common history, the '
                      'source is pulled exactly at the head; lemma_bus_pending: pending == frames pulled but not yet received')
     sm = {'SharedNode::pending_frames': ['SharedNode::next_frame'], 'SharedNode::drop_output': ['SharedNode::next_frame'],
-          'Bus::send': ['SharedNode::next_frame']}
+          'Bus::send': ['SharedNode::next_frame'], 'Output::next': ['SharedNode::next_frame'],
+          'Output::pending_frames': ['SharedNode::next_frame'], 'Output::is_exhausted': ['SharedNode::next_frame'],
+          'Output::drop': ['SharedNode::next_frame']}
     run_unit(ctx, 'bus', search_crate='signal', search_map=sm)
 
 
